@@ -68,7 +68,7 @@ variable {caps : Caps} [CapsOkU caps]
 
 /-! ### one frame -/
 
-theorem frame_shows_gen (dec : String → G) (cw : String → Nat) (hsp : cw "20" = 1) (hd : dec "20" = [32]) (hemp : dec "" = [])
+theorem frame_shows_gen (dec : String → G) (cw : String → Nat) (hsp : cw "20" = 1) (hd : dec "20" = [32]) (hemp : dec "" = []) (hlp : LpOk dec)
     (rows cols : Nat) (s : HState) (e : Emu) (fi : FrameIn) (hready : Ready s.t s.last rows cols)
     (hsim : DSim dec s.t e rows cols)
     (hag : fi.refresh = false → Agree cw caps s.t s.last)
@@ -81,7 +81,7 @@ theorem frame_shows_gen (dec : String → G) (cw : String → Nat) (hsp : cw "20
   obtain ⟨r1, a1, g1, b1⟩ := C01Display.frame_step cw caps hsp rows cols s fi hready hag hok
   have h59 : 59 ∉ dec "" := by rw [hemp]; simp
   have hvoc := frame_ok_anyCaps dec cw (mkFrame caps s fi) hul (CapsOkU.ew (caps := caps)) (CapsOkU.sy (caps := caps))
-    hsp (by rw [hd]; simp) h59 hok2.1 hok2.2
+    hsp (by rw [hd]; simp) h59 hlp hok2.1 hok2.2
   obtain ⟨e', hr, hs', hf⟩ := run_sim_frame cw _ s.t e hsim b1 hvoc
   refine ⟨e', hr, ⟨r1, hcur, hs'⟩, a1, ⟨?_, ?_⟩, hf⟩
   · have := hs'.grid
@@ -109,7 +109,7 @@ theorem frame_shows_gen (dec : String → G) (cw : String → Nat) (hsp : cw "20
       change (stepH cw caps s fi).t.cursorVisible = e'.mode.dectcem at hvis
       rw [← hvis]; exact hc
 
-theorem frame_shows_genC (dec : String → G) (cw : String → Nat) (hsp : cw "20" = 1) (hd : dec "20" = [32]) (hemp : dec "" = [])
+theorem frame_shows_genC (dec : String → G) (cw : String → Nat) (hsp : cw "20" = 1) (hd : dec "20" = [32]) (hemp : dec "" = []) (hlp : LpOk dec)
     (rows cols : Nat) (s : HState) (e : Emu) (fi : FrameIn) (hready : Ready s.t s.last rows cols)
     (hsim : DSim dec s.t e rows cols)
     (hag : fi.refresh = false → Agree cw caps s.t s.last)
@@ -123,7 +123,7 @@ theorem frame_shows_genC (dec : String → G) (cw : String → Nat) (hsp : cw "2
     rw [Lemmas.RenderClip.renderFrameC_eq]; rfl
   rw [htoks, stepHC_eq]
   rw [stepHC_eq] at hcur
-  obtain ⟨e', hr, hl, ag, sh, hf⟩ := frame_shows_gen dec cw hsp hd hemp rows cols s e (clipIn cw fi) hready hsim hag
+  obtain ⟨e', hr, hl, ag, sh, hf⟩ := frame_shows_gen dec cw hsp hd hemp hlp rows cols s e (clipIn cw fi) hready hsim hag
     (clipIn_ok cw caps hsp rows cols fi hok) (clipIn_emuOk dec cw hsp hd fi hok2) (clipIn_ulOk caps cw fi hul) hcur
   refine ⟨e', hr, hl, ag, ?_, hf⟩
   unfold ShowsCK
@@ -159,7 +159,7 @@ theorem LinkedR.toP {dec : String → G} {cw : String → Nat} {s : HState} {e :
     (hl : LinkedR dec cw s e rows cols) : LinkedP dec cw s e rows cols := ⟨hl.ready, hl.vis, hl.sim⟩
 
 /-- A frame from a linked state (any frame kind); the screen selector stays. -/
-theorem frame_any (dec : String → G) (cw : String → Nat) (hsp : cw "20" = 1) (hd : dec "20" = [32]) (hemp : dec "" = [])
+theorem frame_any (dec : String → G) (cw : String → Nat) (hsp : cw "20" = 1) (hd : dec "20" = [32]) (hemp : dec "" = []) (hlp : LpOk dec)
     (rows cols : Nat) (s : HState) (e : Emu) (fi : FrameIn) (hl : LinkedF caps dec cw s e rows cols)
     (hok : FrameInOkC cw caps rows cols fi) (hok2 : EmuFrameOk dec cw fi) (hul : UlOk caps fi) :
     ∃ e', runOps e (opsOfToks dec cw (renderFrameC cw (mkFrame caps s fi)).2) = .ok e' ∧
@@ -169,13 +169,13 @@ theorem frame_any (dec : String → G) (cw : String → Nat) (hsp : cw "20" = 1)
     rw [stepHC_eq]
     refine C01.cursor_as_requested cw cw (mkFrame caps s (clipIn cw fi)) s.t ?_ hl.linked.cursor
     rw [hl.linked.ready.trows, hl.linked.ready.tcols]; exact hok.2.2.2
-  obtain ⟨e', hr, l1, a1, sh, hf⟩ := frame_shows_genC dec cw hsp hd hemp rows cols s e fi hl.linked.ready hl.linked.sim
+  obtain ⟨e', hr, l1, a1, sh, hf⟩ := frame_shows_genC dec cw hsp hd hemp hlp rows cols s e fi hl.linked.ready hl.linked.sim
     (fun _ => hl.agree) hok hok2 hul hcur
   exact ⟨e', hr, ⟨l1, a1⟩, sh, hf.smcup⟩
 
 /-- The REFRESH frame after a resize: needs neither the previous cursor position nor anything about
     the grid. -/
-theorem frame_after_resize_any (dec : String → G) (cw : String → Nat) (hsp : cw "20" = 1) (hd : dec "20" = [32]) (hemp : dec "" = [])
+theorem frame_after_resize_any (dec : String → G) (cw : String → Nat) (hsp : cw "20" = 1) (hd : dec "20" = [32]) (hemp : dec "" = []) (hlp : LpOk dec)
     (rows cols : Nat) (s : HState) (e : Emu) (fi : FrameIn) (hl : LinkedP dec cw s e rows cols)
     (hrf : fi.refresh = true)
     (hok : FrameInOkC cw caps rows cols fi) (hok2 : EmuFrameOk dec cw fi) (hul : UlOk caps fi) :
@@ -207,7 +207,7 @@ theorem frame_after_resize_any (dec : String → G) (cw : String → Nat) (hsp :
     rw [stepHC_eq]
     refine Lemmas.RenderCursor.cursor_nonempty cw cw (mkFrame caps s (clipIn cw fi)) s.t ?_ hne hl.vis
     rw [hl.ready.trows, hl.ready.tcols]; exact hok.2.2.2
-  obtain ⟨e', hr, l1, a1, sh, hf⟩ := frame_shows_genC dec cw hsp hd hemp rows cols s e fi hl.ready hl.sim
+  obtain ⟨e', hr, l1, a1, sh, hf⟩ := frame_shows_genC dec cw hsp hd hemp hlp rows cols s e fi hl.ready hl.sim
     (fun h => by rw [hrf] at h; cases h) hok hok2 hul hcur
   exact ⟨e', hr, ⟨l1, a1⟩, sh, hf.smcup⟩
 
@@ -365,7 +365,7 @@ omit [CapsOkU caps] in
 theorem segOkU_of_noSu (h : caps.styledUnderlines = false) (dec : String → G) (cw : String → Nat) (sg : Seg)
     (hs : SegOk caps dec cw sg) : SegOkU caps dec cw sg := ⟨hs, fun fi _ => ulOk_of_noSu caps h fi⟩
 
-theorem frames_any (dec : String → G) (cw : String → Nat) (hsp : cw "20" = 1) (hd : dec "20" = [32]) (hemp : dec "" = [])
+theorem frames_any (dec : String → G) (cw : String → Nat) (hsp : cw "20" = 1) (hd : dec "20" = [32]) (hemp : dec "" = []) (hlp : LpOk dec)
     (rows cols : Nat) :
     ∀ (fis : List FrameIn) (s : HState) (e : Emu), LinkedF caps dec cw s e rows cols →
       (∀ fi ∈ fis, (FrameInOkC cw caps rows cols fi ∧ EmuFrameOk dec cw fi) ∧ UlOk caps fi) →
@@ -377,7 +377,7 @@ theorem frames_any (dec : String → G) (cw : String → Nat) (hsp : cw "20" = 1
   | nil => intro s e hl _; exact ⟨e, rfl, hl, rfl, fun fi h => by simp at h⟩
   | cons a rest ih =>
     intro s e hl hok
-    obtain ⟨e1, hr1, hl1, sh1, m1⟩ := frame_any dec cw hsp hd hemp rows cols s e a hl (hok a (by simp)).1.1 (hok a (by simp)).1.2
+    obtain ⟨e1, hr1, hl1, sh1, m1⟩ := frame_any dec cw hsp hd hemp hlp rows cols s e a hl (hok a (by simp)).1.1 (hok a (by simp)).1.2
       (hok a (by simp)).2
     obtain ⟨e2, hr2, hl2, m2, sh2⟩ := ih (stepHC cw caps s a) e1 hl1 (fun fi h => hok fi (by simp [h]))
     refine ⟨e2, by simp only [runFramesCK, hr1, bind, Except.bind]; exact hr2, hl2, by rw [m2, m1], ?_⟩
@@ -395,7 +395,7 @@ theorem frames_any (dec : String → G) (cw : String → Nat) (hsp : cw "20" = 1
 
 /-- One segment; `s` is the bookkeeping state of the run (`C12Caps.runSegs`), `s'` the one of the proof
     (the same renderer memory, the display with the unknown grid). -/
-theorem seg_any (dec : String → G) (cw : String → Nat) (hsp : cw "20" = 1) (hd : dec "20" = [32]) (hemp : dec "" = [])
+theorem seg_any (dec : String → G) (cw : String → Nat) (hsp : cw "20" = 1) (hd : dec "20" = [32]) (hemp : dec "" = []) (hlp : LpOk dec)
     (rows cols : Nat) (s s' : HState) (e : Emu) (hm : MemEq s s') (hl : LinkedP dec cw s' e rows cols) (sg : Seg)
     (hsg : SegOkU caps dec cw sg) :
     ∃ e1 e2 s2', runOps e [.resize sg.cols sg.rows] = .ok e1 ∧
@@ -414,9 +414,9 @@ theorem seg_any (dec : String → G) (cw : String → Nat) (hsp : cw "20" = 1) (
   | cons a rest =>
     have ha : a.refresh = true := hhead a (by rw [hf]; rfl)
     have hoka := hfr a (by rw [hf]; simp)
-    obtain ⟨e2, hr2, hl2, sh2, m2⟩ := frame_after_resize_any dec cw hsp hd hemp sg.rows sg.cols _ e1 a lr ha hoka.1 hoka.2
+    obtain ⟨e2, hr2, hl2, sh2, m2⟩ := frame_after_resize_any dec cw hsp hd hemp hlp sg.rows sg.cols _ e1 a lr ha hoka.1 hoka.2
       (hul a (by rw [hf]; simp))
-    obtain ⟨e3, hr3, hl3, m3, sh3⟩ := frames_any dec cw hsp hd hemp sg.rows sg.cols rest _ e2 hl2
+    obtain ⟨e3, hr3, hl3, m3, sh3⟩ := frames_any dec cw hsp hd hemp hlp sg.rows sg.cols rest _ e2 hl2
       (fun fi h => ⟨hfr fi (by rw [hf]; simp [h]), hul fi (by rw [hf]; simp [h])⟩)
     refine ⟨e3, _, hr1, by simp only [runFramesCK, hr2, bind, Except.bind]; exact hr3, ?_, hl3.toP, by rw [m3, m2, m1], ?_⟩
     · exact foldl_memEq cw (a :: rest) hm1
@@ -433,7 +433,7 @@ theorem seg_any (dec : String → G) (cw : String → Nat) (hsp : cw "20" = 1) (
         exact sh3 fi hlast
 
 theorem shows_across_resizes_aux (dec : String → G) (cw : String → Nat) (hsp : cw "20" = 1) (hd : dec "20" = [32])
-    (hemp : dec "" = []) :
+    (hemp : dec "" = []) (hlp : LpOk dec) :
     ∀ (segs : List Seg) (rows cols : Nat) (s s' : HState) (e : Emu), MemEq s s' → LinkedP dec cw s' e rows cols →
       (∀ sg ∈ segs, SegOkU caps dec cw sg) →
       ∃ e', runSegs caps dec cw s e segs = .ok e' ∧ e'.mode.smcup = e.mode.smcup ∧
@@ -444,7 +444,7 @@ theorem shows_across_resizes_aux (dec : String → G) (cw : String → Nat) (hsp
   | nil => intro rows cols s s' e _ _ _; exact ⟨e, rfl, rfl, fun sg h => by simp at h⟩
   | cons sg rest ih =>
     intro rows cols s s' e hm hl hok
-    obtain ⟨e1, e2, s2', hr1, hr2, hm2, lr, m2, sh⟩ := seg_any dec cw hsp hd hemp rows cols s s' e hm hl sg (hok sg (by simp))
+    obtain ⟨e1, e2, s2', hr1, hr2, hm2, lr, m2, sh⟩ := seg_any dec cw hsp hd hemp hlp rows cols s s' e hm hl sg (hok sg (by simp))
     obtain ⟨e3, hr3, m3, h3⟩ := ih sg.rows sg.cols _ s2' e2 hm2 lr (fun x hx => hok x (by simp [hx]))
     refine ⟨e3, by simp only [runSegs, hr1, hr2, bind, Except.bind]; exact hr3, by rw [m3, m2], ?_⟩
     intro sg' hlast
@@ -475,35 +475,35 @@ theorem shows_across_resizes_aux (dec : String → G) (cw : String → Nat) (hsp
     Between a resize and the end of the refresh frame nothing is claimed (the primary screen then shows
     the reflowed old content). -/
 theorem emu_shows_across_resizes_any (dec : String → G) (cw : String → Nat) (hsp : cw "20" = 1) (hd : dec "20" = [32])
-    (hemp : dec "" = []) (segs : List Seg) (rows cols : Nat) (s : HState) (e : Emu) (hl : LinkedP dec cw s e rows cols)
+    (hemp : dec "" = []) (hlp : LpOk dec) (segs : List Seg) (rows cols : Nat) (s : HState) (e : Emu) (hl : LinkedP dec cw s e rows cols)
     (hok : ∀ sg ∈ segs, SegOkU caps dec cw sg) :
     ∃ e', runSegs caps dec cw s e segs = .ok e' ∧ e'.mode.smcup = e.mode.smcup ∧
       ∀ sg, segs.getLast? = some sg → Lemmas.Emu.EmuInv e' sg.rows sg.cols ∧
         ∀ fi, sg.frames.getLast? = some fi → ShowsCK caps dec cw fi e' :=
-  shows_across_resizes_aux dec cw hsp hd hemp segs rows cols s s e ⟨rfl, rfl, rfl⟩ hl hok
+  shows_across_resizes_aux dec cw hsp hd hemp hlp segs rows cols s s e ⟨rfl, rfl, rfl⟩ hl hok
 
 /-- The same through the wire with the parser's grapheme clustering (`C12Caps.runSegsM`), for histories
     in which no two graphemes of a frame merge (`NoMergeGrid`; necessary: F112d). -/
 theorem emu_shows_across_resizes_any_clustered (merges : String → String → Bool) (cat : String → String → String)
-    (dec : String → G) (cw : String → Nat) (hsp : cw "20" = 1) (hd : dec "20" = [32]) (hemp : dec "" = [])
+    (dec : String → G) (cw : String → Nat) (hsp : cw "20" = 1) (hd : dec "20" = [32]) (hemp : dec "" = []) (hlp : LpOk dec)
     (segs : List Seg) (rows cols : Nat) (s : HState) (e : Emu) (hl : LinkedP dec cw s e rows cols)
     (hok : ∀ sg ∈ segs, SegOkU caps dec cw sg) (hnm : ∀ sg ∈ segs, ∀ fi ∈ sg.frames, C12.NoMergeGrid merges fi.next) :
     ∃ e', runSegsM caps merges cat dec cw s e segs = .ok e' ∧ e'.mode.smcup = e.mode.smcup ∧
       ∀ sg, segs.getLast? = some sg → Lemmas.Emu.EmuInv e' sg.rows sg.cols ∧
         ∀ fi, sg.frames.getLast? = some fi → ShowsCK caps dec cw fi e' := by
   rw [runSegsM_eq merges cat dec cw segs s e hnm]
-  exact emu_shows_across_resizes_any dec cw hsp hd hemp segs rows cols s e hl hok
+  exact emu_shows_across_resizes_any dec cw hsp hd hemp hlp segs rows cols s e hl hok
 
 /-- **In equational form**: the grid read back IS the application's screen, the cursor read back IS
     the requested cursor. -/
 theorem emu_reads_back_across_resizes_any (enc : G → String) (dec : String → G) (cw : String → Nat) (hsp : cw "20" = 1)
-    (hd : dec "20" = [32]) (hemp : dec "" = []) (segs : List Seg) (rows cols : Nat) (s : HState) (e : Emu)
+    (hd : dec "20" = [32]) (hemp : dec "" = []) (hlp : LpOk dec) (segs : List Seg) (rows cols : Nat) (s : HState) (e : Emu)
     (hl : LinkedP dec cw s e rows cols) (hok : ∀ sg ∈ segs, SegOkU caps dec cw sg)
     (sg : Seg) (fi : FrameIn) (hsg : segs.getLast? = some sg) (hfi : sg.frames.getLast? = some fi)
     (he : EncOk enc dec fi) :
     ∃ e', runSegs caps dec cw s e segs = .ok e' ∧
       readScreen enc e'.active = Expected.expectedC cw caps fi.next ∧ readCursor e' = wantCursor fi := by
-  obtain ⟨e', hr, _, h⟩ := emu_shows_across_resizes_any dec cw hsp hd hemp segs rows cols s e hl hok
+  obtain ⟨e', hr, _, h⟩ := emu_shows_across_resizes_any dec cw hsp hd hemp hlp segs rows cols s e hl hok
   exact ⟨e', hr, shows_reads_back enc dec cw fi e' ((h sg hsg).2 fi hfi) he⟩
 
 open VaxisModel.Model.EmuDraw VaxisModel.Lemmas.C12Draw VaxisModel.Lemmas.EmuDraw in
@@ -511,7 +511,7 @@ open VaxisModel.Model.EmuDraw VaxisModel.Lemmas.C12Draw VaxisModel.Lemmas.EmuDra
     does not resize, makes exactly one `SetCell` per glyph cell of the application's screen, each carrying
     a cell that shows it at the same coordinates, and shows the application's cursor. -/
 theorem emu_draw_across_resizes_any (dec : String → G) (cw : String → Nat) (hsp : cw "20" = 1) (hd : dec "20" = [32])
-    (hemp : dec "" = []) (segs : List Seg) (rows cols : Nat) (s : HState) (e : Emu)
+    (hemp : dec "" = []) (hlp : LpOk dec) (segs : List Seg) (rows cols : Nat) (s : HState) (e : Emu)
     (hl : LinkedP dec cw s e rows cols) (hok : ∀ sg ∈ segs, SegOkU caps dec cw sg)
     (sg : Seg) (fi : FrameIn) (hsg : segs.getLast? = some sg) (hfi : sg.frames.getLast? = some fi) (focused : Bool) :
     ∃ (e' : Emu) (per : List (List DrawCall)), runSegs caps dec cw s e segs = .ok e' ∧
@@ -525,7 +525,7 @@ theorem emu_draw_across_resizes_any (dec : String → G) (cw : String → Nat) (
             setCellChain sg.cols sg.rows [Win.root sg.cols sg.rows] call.col call.row = some ((j : Int), (k : Int))) ∧
           (∀ (j : Nat) (d : DCell), drow[j]? = some d → d ≠ .cont → ∃ call ∈ l, call.col = (j : Int))) ∧
       shownCursor true e' true = (if fi.cursor.visible then some (fi.cursor.col, fi.cursor.row) else none) := by
-  obtain ⟨e', hr, _, h⟩ := emu_shows_across_resizes_any dec cw hsp hd hemp segs rows cols s e hl hok
+  obtain ⟨e', hr, _, h⟩ := emu_shows_across_resizes_any dec cw hsp hd hemp hlp segs rows cols s e hl hok
   obtain ⟨hi, hs⟩ := h sg hsg
   have hsh := hs fi hfi
   have hsgok := (hok sg (List.mem_of_getLast? hsg)).1
@@ -581,7 +581,7 @@ example :
     exact hk
   have hl : LinkedP C12.decEx C12.cwEx (C12.startState 4 2) e1 2 4 :=
     ⟨C12.start_ready 4 2, fun _ => rfl, hs⟩
-  obtain ⟨e', hr, hm, hsh⟩ := emu_shows_across_resizes_any (caps := emuCapsFull) C12.decEx C12.cwEx rfl rfl rfl [⟨3, 1, [fi]⟩] 2 4
+  obtain ⟨e', hr, hm, hsh⟩ := emu_shows_across_resizes_any (caps := emuCapsFull) C12.decEx C12.cwEx rfl rfl rfl C12.lpOk_decEx [⟨3, 1, [fi]⟩] 2 4
     (C12.startState 4 2) e1 hl (by
     intro sg hsg
     simp only [List.mem_singleton] at hsg
@@ -593,7 +593,7 @@ example :
       simp only [gridUl, List.mem_cons, List.not_mem_nil, or_false] at hr
       subst hr
       simp only [List.mem_cons, List.not_mem_nil, or_false] at hc
-      rcases hc with rfl | rfl | rfl <;> exact ⟨⟨⟨rfl, by decide, Or.inl rfl⟩, by decide, by decide, by decide⟩, by decide⟩
+      rcases hc with rfl | rfl | rfl <;> exact ⟨⟨⟨rfl, by decide, Or.inl rfl⟩, by decide, by decide⟩, by decide⟩
     refine ⟨⟨by decide, fun f h => by cases h; rfl, ?_⟩, ?_⟩
     · intro f hf
       simp only [List.mem_singleton] at hf
